@@ -366,7 +366,11 @@ impl DbcParser {
         // Skip to the record data (uses version-specific offset)
         cursor.seek(SeekFrom::Start(self.record_data_offset))?;
 
-        let mut records = Vec::with_capacity(self.header.record_count as usize);
+        // The record count comes from the file header: never reserve more than the data can hold
+        let available = (self.data.len() as u64).saturating_sub(self.record_data_offset)
+            / u64::from(self.header.record_size.max(1));
+        let mut records =
+            Vec::with_capacity(u64::from(self.header.record_count).min(available) as usize);
 
         for _ in 0..self.header.record_count {
             let record = if let Some(schema) = &self.schema {
